@@ -49,3 +49,16 @@ From LH Require Import Loops Runtime RuntimeFacts.
 Theorem C16_model_runs_are_accepted : forall ls s, lrun l_init ls = Some s -> rt_check (lobs l_init ls) = true.
 Proof. exact model_runs_are_accepted. Qed.
 Print Assumptions C16_model_runs_are_accepted.
+
+(* the election trigger under any sequence of public operations (register, stop, time passing with or without a reader
+   of the channel): once the reader is back nothing is parked in triggerElections, and after Stop every callback that is
+   still parked has been cancelled and gives up without any reader - nothing of the trigger outlives a shutdown *)
+Theorem C16_trigger_nothing_parked_once_the_reader_is_back : forall ops, tm_public_parked (ops ++ [PResume]) = 0%nat.
+Proof. exact nothing_parked_once_the_reader_is_back. Qed.
+Print Assumptions C16_trigger_nothing_parked_once_the_reader_is_back.
+
+Theorem C16_trigger_after_stop_every_parked_callback_gives_up : forall ops i x,
+  nth_error (tm_insts (fold_left tm_pstep (ops ++ [PStop]) tm_init)) i = Some x ->
+  (ti_phase x = TSending -> ti_cancelled x = true) /\ ti_phase x <> TRunning /\ ti_phase x <> TPending.
+Proof. exact after_stop_every_parked_instance_gives_up. Qed.
+Print Assumptions C16_trigger_after_stop_every_parked_callback_gives_up.
